@@ -38,8 +38,8 @@ type TNode struct {
 	EPol     int        `json:"epol,omitempty"`         // equality policy: 1 always equal, 2 never equal
 	ReadOnly bool       `json:"ro,omitempty"`
 	LeftErr  bool       `json:"left_err,omitempty"` // an error left over from an earlier call is recorded in the instance
-	Shared   bool       `json:"shared,omitempty"` // this very node occurs at more than one position: ONE instance is built and stored at each
-	Alias    int        `json:"alias,omitempty"`  // 0 native, 1 AStack, 2 *AStack, 3 SStack, 4 *SStack / same for conditions
+	Shared   bool       `json:"shared,omitempty"`   // this very node occurs at more than one position: ONE instance is built and stored at each
+	Alias    int        `json:"alias,omitempty"`    // 0 native, 1 AStack, 2 *AStack, 3 SStack, 4 *SStack / same for conditions
 	Kids     []*TNode   `json:"kids,omitempty"`
 
 	// condition
@@ -280,6 +280,9 @@ func (n *TNode) BuildStack() stackage.Stack {
 	if n.NoNest {
 		s.SetNoNesting(true)
 	}
+	if n.LeftErr {
+		s.SetErr(errPolicyRejects)
+	}
 	if n.PPol {
 		s.SetPresentationPolicy(func(...any) string { return "<presented>" })
 	}
@@ -376,6 +379,8 @@ func lockWatch(point string, id uintptr) {
 func init() {
 	core.BeforeCase = func(c *core.Ctx, m *core.Monitor, idx int) {
 		BuildStyle = (idx / 3) % 6
+		CapSpell = (idx / 7) % 6
+		capSpellN = idx
 		AutoMutex = false
 		if !m.Race {
 			// (C10 and C11 run several goroutines against one structure and bring their own lock monitors)
@@ -666,7 +671,7 @@ var builtinOps = []int{1, 2, 3, 4, 5, 6}
 // SimpleOp draws a valid operator (mostly built-in).
 func SimpleOp(r *core.Rng) *OpDesc {
 	if r.Chance(1, 5) {
-		return &OpDesc{User: true, Txt: []string{"~=", ":=", "=~", "EQ"}[r.Intn(4)], Ctx: "custom"}
+		return &OpDesc{User: true, Txt: []string{"~=", ":=", "=~", "EQ", "=", ">=", "!=", "<"}[r.Intn(8)], Ctx: "custom"} // (a user's operator may print like a built-in one and is still the user's)
 	}
 	return &OpDesc{Code: builtinOps[r.Intn(6)]}
 }
@@ -775,6 +780,24 @@ func (g *TreeGen) genCond(r *core.Rng, depth int) *TNode {
 // SpiceNoHuge keeps Spice from building thousand-element stacks (for monitors whose work per tree grows with the square of
 // its size; they have dedicated large cases instead).
 var SpiceNoHuge bool
+
+// SpiceErrs (own PRNG stream; a tenth of the cases) marks some Stack / Condition nodes as carrying an error left behind by
+// an earlier call (SetErr after the instance is complete). What an instance holds, renders as, equals or leads to is a
+// matter of its content and settings, not of what some earlier call complained about.
+func SpiceErrs(seed uint64, idx int, root *TNode) bool {
+	sp := core.NewRng(core.Mix(seed+0xe4405, uint64(idx)))
+	if !sp.Chance(1, 10) {
+		return false
+	}
+	any := false
+	root.Walk(func(n *TNode) {
+		if (n.T == "stack" || n.T == "cond") && sp.Chance(1, 3) {
+			n.LeftErr = true
+			any = true
+		}
+	})
+	return any
+}
 
 func Spice(r *core.Rng, root *TNode, wide, long, share bool) (did string) {
 	var stacks []*TNode
